@@ -1,13 +1,14 @@
 import Rv.Oracle
 
-partial def loop (h : IO.FS.Stream) (out : IO.FS.Stream) : IO Unit := do
+partial def loop (h : IO.FS.Stream) (out : IO.FS.Stream) (st : Rv.Oracle.OState) : IO Unit := do
   let line ← h.getLine
   if line.isEmpty then return ()
   let l := if line.back == '\n' then (line.dropEnd 1).toString else line
-  out.putStrLn (Rv.Oracle.step l)
-  loop h out
+  let (st', o) := Rv.Oracle.step st l
+  out.putStrLn o
+  loop h out st'
 
 def main : IO Unit := do
   let out ← IO.getStdout
-  loop (← IO.getStdin) out
+  loop (← IO.getStdin) out {}
   out.flush
